@@ -125,6 +125,7 @@ class FnSpec:
         self.ghostparam = None
         self.proofs = []     # (anchor dict, text)
         self.attrs = []      # verus attributes to put in front of the fn
+        self.binds = []      # (NAME, regex with one group): `$NAME` in clause text = the local the code names there
         self.decreases = None
         self.used = False
 
@@ -181,6 +182,9 @@ def parse_spec(path):
             cur.ghostparam = rest
         elif d == "attr":
             cur.attrs.append(rest)
+        elif d == "bind":
+            nm, rx = rest.split(None, 1)
+            cur.binds.append((nm, rx.strip().strip("/")))
         elif d == "iter":
             cur_loop["iter"] = rest
         elif d == "loop":
@@ -403,7 +407,9 @@ class Unit:
             for o in _sub(e_):
                 subsumed.setdefault(o, []).append(e_)
         edits = [e_ for e_ in edits if not _sub(e_)]
-        edits = sorted(enumerate(edits), key=lambda p: (p[1][0], p[0]))
+        # at one position: pure insertions first (in the order they were added), then the edit that
+        # replaces text starting there
+        edits = sorted(enumerate(edits), key=lambda p: (p[1][0], 0 if p[1][1] == p[1][0] else 1, p[0]))
         pos = s
         for _, (a, b, text, tag) in edits:
             if a < pos or b > e:
@@ -464,6 +470,41 @@ class Unit:
             return 0 if self.prop in c.tags else (1 if not c.tags else 2)
         return sorted(cls, key=pri)
 
+    def _resolve_binds(self, src, it, key, spec):
+        """`//@ bind NAME /regex/`: clause text may call a local of the function `$NAME`; the name
+        the code actually uses is read off the function text by the regex (one group, one distinct
+        match), so that renaming the local does not lose the contract."""
+        if not spec.binds or getattr(spec, "_bound", False):
+            return
+        text = src.text(it["start"], it["span"][1])
+        sub = {}
+        for nm, rx in spec.binds:
+            vals = set(m.group(1) for m in re.finditer(rx, text))
+            if len(vals) != 1:
+                raise Undecided(f"lost anchor: bind {nm} of {key}: /{rx}/ matches {len(vals)} distinct names")
+            sub[nm] = vals.pop()
+        def f(t):
+            for nm, v in sub.items():
+                t = re.sub(r"\$" + re.escape(nm) + r"\b", v, t)
+            return t
+        for c in spec.requires + spec.ensures:
+            c.text = f(c.text)
+        for lp in spec.loops.values():
+            for c in lp["invariant"] + lp.get("ensures", []):
+                c.text = f(c.text)
+            dc = lp.get("decreases")
+            if isinstance(dc, str):
+                lp["decreases"] = f(dc)
+            elif dc is not None and hasattr(dc, "text"):
+                dc.text = f(dc.text)
+        for cl in spec.closures.values():
+            for c in cl.get("requires", []) + cl.get("ensures", []):
+                c.text = f(c.text)
+        spec.proofs = [(f(a), c) for (a, c) in spec.proofs]
+        for _, c in spec.proofs:
+            c.text = f(c.text)
+        spec._bound = True
+
     def _register(self, name, kind, tags, fn, where=None):
         self.obligations.append({"name": name, "kind": kind, "tags": tags, "fn": fn, "where": where})
 
@@ -479,6 +520,7 @@ class Unit:
         s_end = it["span"][1]
         if stub:
             return self._stub(src, it, key, spec)
+        self._resolve_binds(src, it, key, spec)
         sig = it["sig"]
         eds = []
         # E1: attributes in front of the fn are simply not copied (we start at `start`);
@@ -662,7 +704,9 @@ class Unit:
             if not n["body_is_block"]:
                 b0, b1 = n["body"]
                 eds.append((b0, b0, "{ ", None))
-                eds.append((b1, b1, " }", None))
+                # the closing brace goes in FRONT of anything else inserted at the same position
+                # (e.g. the E4 ghost argument of the call the closure is the last argument of)
+                eds.insert(0, (b1, b1, " }", None))
             self._log("E8", src, n["span"][0], src.text(n["span"][0], n["or2"]), hdr)
         # proof insertions (ghost only)
         for anchor, c in spec.proofs:
